@@ -9,6 +9,7 @@ import (
 	"encoding/json"
 	"fmt"
 	"net/netip"
+	"slices"
 	"strings"
 	"testing"
 	"time"
@@ -295,6 +296,12 @@ func c03Gen(t *rapid.T) c03Case {
 				ifi.Order = append(ifi.Order, 4)
 			},
 			func() {
+				if len(ifi.RDNSS) > 0 && g.chance("h:zoned", 1, 4) {
+					r := &ifi.RDNSS[rapid.IntRange(0, len(ifi.RDNSS)-1).Draw(t, "zonedwhich")]
+					r.Servers = append(slices.Clone(r.Servers), dAddr{Text: rapid.SampledFrom([]string{"fe80::53%eth0", "fe80::1%eth0", "2001:db8::53%1", "::%eth0"}).Draw(t, "zonedserver"), Kind: "zoned"})
+				}
+			},
+			func() {
 				txt := rapid.SampledFrom(c03CIDRs).Draw(t, "p64")
 				p := netip.MustParsePrefix(txt)
 				ifi.PREF64 = append(ifi.PREF64, dPREF64{dCIDR{Kind: "value", Text: txt, Addr: p.Addr().String(), Bits: p.Bits(), V4: p.Addr().Is4() || p.Addr().Is4In6(), Host: p != p.Masked()}})
@@ -415,6 +422,23 @@ func c03Sweep(yield func(c03Case) bool) {
 			if !yield(c03Case{Doc: dDoc{Interfaces: []dIface{ifi}}, State: st}) {
 				return
 			}
+		}
+	}
+	// server addresses with a zone: netip parses them, the option has no room for a zone (finding F23)
+	for _, servers := range [][]string{{"fe80::53%eth0"}, {"fe80::1%eth0", "fe80::1"}, {"fe80::1%eth0", "fe80::1%eth1"}, {"::%eth0"}, {"2001:db8::53%1", "::"}, {"fe80::1%25eth0"}} {
+		var as []dAddr
+		for _, x := range servers {
+			kind := "zoned"
+			if x == "::" {
+				kind = "wildcard"
+			} else if !strings.Contains(x, "%") {
+				kind = "v6"
+			}
+			as = append(as, dAddr{Text: x, Kind: kind, Addr: x})
+		}
+		ifi := dIface{Name: &eth, Advertise: &tr, RDNSS: []dRDNSS{{Servers: as}}}
+		if !yield(c03Case{Doc: dDoc{Interfaces: []dIface{ifi}}, State: st}) {
+			return
 		}
 	}
 	for _, names := range [][]string{{""}, {"a", ""}, {strings.Repeat("a", 63) + ".example"}, {"lan", "example.com", "a.b.c.d.e.f.g"}} {
